@@ -87,15 +87,27 @@ def check_property(prop, tier, seed, units, no_kani=False, verbose=False):
         undecided.append('unit(s) missing: %s' % missing)
     with cf.ThreadPoolExecutor(max(1, len(my_units))) as ex:
         results = list(ex.map(lambda u: vx.run_unit(u), my_units))
-    # ---- Kani side
+    # ---- Kani side: the property's own harnesses, plus (on demand) the harnesses paired with any
+    # function whose Verus obligations failed, to obtain a counterexample that is replayed on the real code
     kani_res = None
     kani_cfg = pc.get('kani', {})
     harnesses = list(kani_cfg.get('quick', []))
     if tier == 'thorough':
         harnesses += list(kani_cfg.get('thorough', []))
-    if harnesses and not no_kani:
+    on_demand = []
+    if not no_kani:
         import run_kani
-        kani_res = run_kani.run(harnesses, prop, tier)
+        reg = run_kani.registry()['harnesses']
+        failing_fns = set()
+        for r in results:
+            for f in r.get('failures', []):
+                if prop in (f.get('props') or []) and f.get('fn'):
+                    failing_fns.add(f['fn'].replace('<', '').replace('>', '').split(' as ')[-1])
+        for hn, h in reg.items():
+            if hn not in harnesses and any(t in failing_fns or ('DnsRecordExt::' + t.split('::')[-1]) in failing_fns for t in h['targets']):
+                on_demand.append(hn)
+        if harnesses or on_demand:
+            kani_res = run_kani.run(harnesses + on_demand, prop, tier)
     violations = []
     known_hits = []
     obligations = {}
@@ -172,10 +184,18 @@ def check_property(prop, tier, seed, units, no_kani=False, verbose=False):
     for key, o in list(obligations.items())[:12]:
         samples.append({'obligation': key, 'kind': o['kind'], 'clause': o['text'][:300]})
     kani_ev = None
+    kani_notes = []
     if kani_res is not None:
         kani_ev = kani_res['evidence']
         for h in kani_res['harnesses']:
             hid = 'kani:' + h['name']
+            if h['status'] == 'FAILED' and h.get('replay'):
+                # attach the replayed counterexample to the Verus violations of the same function(s)
+                tg = set(h['target'].split(', '))
+                for unit, f in violations:
+                    fn = (f.get('fn') or '')
+                    if fn in tg or ('trait ' + fn) in tg or fn.split('::')[-1] in set(t.split('::')[-1] for t in tg):
+                        f['replay_extra'] = (f.get('replay_extra') or '') + 'Kani harness %s, counterexample (%s)\n%s\n' % (h['name'], h.get('counterexample'), h['replay'])
             if h['status'] == 'SUCCESSFUL':
                 if h.get('bounded'):
                     continue
@@ -191,10 +211,9 @@ def check_property(prop, tier, seed, units, no_kani=False, verbose=False):
                     obligations[hid] = {'props': [prop], 'kind': 'kani', 'fn': h['name'], 'text': h.get('what', '')}
                     violations.append(('kani', f))
             else:
-                if h.get('bounded') and h['status'] in ('TIMEOUT',):
-                    undecided.append('kani bounded harness %s: %s' % (h['name'], h['status']))
-                else:
-                    undecided.append('kani harness %s: %s' % (h['name'], h['status']))
+                # Kani is the cross-check / counterexample source; Verus is the decider.  A harness that
+                # times out or hits an unsupported construct is recorded, never turned into a verdict.
+                kani_notes.append('kani harness %s: %s' % (h['name'], h['status']))
         for m in kani_res.get('machinery', []):
             undecided.append('kani: ' + m)
     if not obligations and not violations:
@@ -243,6 +262,7 @@ def check_property(prop, tier, seed, units, no_kani=False, verbose=False):
             'not_decided': pc.get('not_decided', []),
             'known_findings_reported': [k['what'] for k, _ in known_hits],
             'undecided': undecided,
+            'kani_notes': kani_notes,
             'smt_run_ms_total': smt_ms,
         },
         'assumptions': pc.get('assumptions', []) + cfg.get('global_assumptions', []),
